@@ -30,7 +30,7 @@ import copy
 from ..absint import Sym, Lin, BufV, BytesV, Obj, Comp, Raised, explore, show
 from ..bits import Bits
 from ..consts import Folder, Ref, EnumVal
-from ..dexmodel import (DexInterp, StreamV, CMInfo, bind_ctor_args, prov, show_prov, slot_bits, describe_bits,
+from ..dexmodel import (DexInterp, StreamV, CMInfo, bind_ctor_args, prov, show_prov, slot_bits, describe_bits, explore_first,
                         STREAM_SPAN, is_cm)
 from ..model import DEX, DEX_TYPES, AnalysisError, walk_no_nested
 from ..spec import dexformat as spec
@@ -351,16 +351,18 @@ def core(ctx):
 
 # ---- (1a) layouts ----------------------------------------------------------------
 def ctor_paths(md, cls, size=None, with_obj=False):
-    # HeaderItem is a long chain of `if <opaque validation>: raise`: it is examined on the path where every
-    # validation passes (1300 abstract paths otherwise, all but 16 of them ending in the raise)
-    od = False if cls.name == "HeaderItem" else None
+    # HeaderItem is a long chain of validations (`if bad: raise`, or `if good: return` + raise in helpers): it is examined on one
+    # well-formed path found by depth-first search (1300 abstract paths otherwise, all but 16 of them ending in a raise)
+    wf = cls.name == "HeaderItem"
 
     def run(asg):
-        if od is not None:
-            asg = dict(wellformed_magic(), **asg)
-        it = md.interp(asg, opaque_default=od)
+        if wf:
+            asg = {**wellformed_magic(), **asg}
+        it = md.interp(asg)
         o, st = md.fresh(it, cls, size)
         return (st, o, it) if with_obj else st
+    if wf:
+        return [explore_first(run)]
     return explore(run)
 
 
@@ -399,7 +401,9 @@ def check_layout(ctx, md, cname, item):
             why = ""
             while pos < size and k < len(reads):
                 e = reads[k]
-                if e[0] != "raw" or e[1] != pos or not isinstance(e[2], int):
+                if e[0] == "raw" and not (isinstance(e[1], int) and isinstance(e[2], int)):
+                    raise AnalysisError("%s.__init__: read #%d has a symbolic position / length (%s, %s)" % (cname, k, show(e[1])[:40], show(e[2])[:40]))
+                if e[0] != "raw" or e[1] != pos:
                     good, why = False, "read #%d is %r, expected a fixed-size read at offset %d" % (k, e[:3], pos)
                     break
                 pos += e[2]
@@ -409,7 +413,7 @@ def check_layout(ctx, md, cname, item):
             ctx.check("layout/size", inst, good, init, "%s.__init__ fixed part" % cname,
                       "%s: %s" % (cname, why), detail="%s reads bytes 0..%d contiguously" % (cname, size))
             # every struct unpack event of this constructor: unsigned codes of the right widths
-            evs = [ev[1] for ev in it.events if ev[0] == "unpack" and ev[1][0] == init.qualname]
+            evs = [ev[1] for ev in it.events if ev[0] == "unpack" and ev[1][0].startswith(cname + ".")]
             exp_codes = {}
             for fname, off, n, code, ref in fixed:
                 exp_codes[off] = (fname, n, code)
@@ -519,6 +523,12 @@ def check_resolvers(ctx, md):
                       "ClassManager.%s must look its argument up in section %s; it reads %s" % (acc, sec, sorted(cm_closure(cmi, acc))))
             continue
         for node, key in keys:
+            key = resolve_alias(f, key)
+            if key is not None and not isinstance(key, ast.Name) and not any(isinstance(x, ast.Name) and x.id == params[1] for x in ast.walk(key)) \
+                    and any(isinstance(x, ast.Call) for x in ast.walk(key)):
+                raise AnalysisError("ClassManager.%s: lookup key %s is computed by a call (outside the fragment)" % (acc, ast.unparse(key)[:60]))
+            if key is None:
+                raise AnalysisError("ClassManager.%s: section %s is used without a keyed lookup (shape outside the fragment)" % (acc, sec))
             good = isinstance(key, ast.Name) and key.id == params[1] and not reassigned(f, params[1])
             ctx.check("resolver/key", "ClassManager.%s" % acc, good, f, node,
                       "ClassManager.%s looks section %s up with %s, not with its argument %s" % (
@@ -536,6 +546,8 @@ def check_resolvers(ctx, md):
                 rl.append(role[1] if role and role[0] == "R" else None)
             else:
                 rl.append(None)
+        if None in rl:
+            raise AnalysisError("ClassManager.get_proto: returned elements are not plain ProtoIdItem role getters (shape outside the fragment)")
         roles["get_proto"] = rl
     else:
         raise AnalysisError("ClassManager.get_proto: expected a single return of a list display")
@@ -552,6 +564,17 @@ def check_resolvers(ctx, md):
         lst = GETTERS[cname]["get_list"][1]
         roles[acc] = [e[1] for e in lst]
     return roles
+
+
+def resolve_alias(f, e, depth=0):
+    """follow `local = <expr>` single definitions of a Name"""
+    while isinstance(e, ast.Name) and depth < 5:
+        defs = [n.value for n in walk_no_nested(f.node) if isinstance(n, ast.Assign) and any(isinstance(t, ast.Name) and t.id == e.id for t in n.targets)]
+        if len(defs) != 1:
+            break
+        e = defs[0]
+        depth += 1
+    return e
 
 
 def reassigned(f, name):
@@ -607,8 +630,10 @@ def check_containers(ctx, md):
             v, it, o = r
             elems = [x for c, x, a in it.new_log if c.name == ename]
             comps = [a for a in o.attrs.values() if isinstance(a, Comp) and isinstance(a.elt, Obj) and a.elt.cls.name == ename]
-            good = len(comps) == 1 and len(elems) == 1
-            why = "elements are not built by one comprehension over the stream"
+            if not (len(comps) == 1 and len(elems) == 1):
+                raise AnalysisError("%s: elements are not built by one comprehension over the stream (shape outside the fragment)" % hname)
+            good = True
+            why = ""
             if good:
                 c = comps[0]
                 rng = c.iter
@@ -619,6 +644,11 @@ def check_containers(ctx, md):
                 sel = elems[0].attrs.get("__selected_by__")
                 good = sel == Sym("param", "idx")
                 why = "get(idx) selects element %s" % show(sel)
+                if not good and sel is not None:
+                    op = []
+                    prov(sel, opaque=op)
+                    if op:
+                        raise AnalysisError("%s.get: element index evaluates outside the fragment (%s)" % (hname, op[0]))
             if good:
                 if hname == "TypeHIdItem":
                     exp = field_value("type_id_item", "descriptor_idx", asg)
@@ -686,6 +716,9 @@ def check_class_data(ctx, md):
             typ = next((a for a in args if isinstance(a, Ref) and a.kind == "class"), None)
             exp_size = Sym(spec.ULEB, "buff", k)
             inst = "ClassDataItem load #%d (%s)" % (k, fname)
+            if size is None or lst is None or typ is None:
+                raise AnalysisError("ClassDataItem.__init__: arguments of %s call #%d are not (count, list, element class) terms: %s" % (
+                    loader.name, k, show(args)[:120]))
             ctx.check("class-data/order", inst + " size", size == exp_size and nleb is not None and nleb >= 4, init,
                       "%s(...) call #%d size" % (loader.name, k),
                       "list #%d (%s) is loaded with element count %s; the format gives %s_size = ULEB #%d, read before any element" % (
@@ -805,6 +838,11 @@ def check_members(ctx, md, list_roles):
             it, o = mk(asg)
             return it.call_function(cls.lookup(idx_getter), [], recv=o)
         for asg, v in explore(run0):
+            if v != idx:
+                op = []
+                prov(v, opaque=op)
+                if op:
+                    raise AnalysisError("%s.%s evaluates outside the fragment: %s" % (cname, idx_getter, op[0]))
             ctx.check("getter", "%s.%s" % (cname, idx_getter), v == idx, cls.lookup(idx_getter), "%s.%s" % (cname, idx_getter),
                       "%s.%s() after adjust_idx(prev) is %s; the format says %s + previous index" % (cname, idx_getter, show(v), diff_name),
                       detail="%s = %s + prev" % (idx_getter, diff_name))
@@ -861,6 +899,12 @@ def check_code(ctx, md):
         ln = after[0][2] if after else None
         if isinstance(ln, Bits):
             ln = ln.subst(a)
+        if after and not isinstance(after[0][1], int):
+            raise AnalysisError("DalvikCode.__init__: position of the instruction read is symbolic (%s)" % show(after[0][1])[:60])
+        if after and not isinstance(ln, (Bits, int)):
+            raise AnalysisError("DalvikCode.__init__: length of the instruction read is an opaque term (%s)" % show(ln)[:60])
+        if isinstance(ln, Bits) and ln.has_top():
+            raise AnalysisError("DalvikCode.__init__: length of the instruction read is not exact")
         good = good and ln == insns_size.shl(1)
         ctx.check("code/insns", "DalvikCode insns", good, init, "DalvikCode.__init__ insns read",
                   "the instruction array must be the insns_size*2 bytes at offset %d; read is at %s length %s" % (
@@ -904,20 +948,24 @@ def check_header_use(ctx, md):
             return super()._h_call(it, name, callee, args, kwargs, e, func)
 
     def run(asg):
-        asg = dict(wellformed_magic(), **asg)
-        it = Spy(md.repo, md.folder, asg=dict(asg), construct=lambda c: c.name == "HeaderItem", inline_module=None,
-                 opaque_default=False)
+        asg = {**wellformed_magic(), **asg}
+        it = Spy(md.repo, md.folder, asg=dict(asg), construct=lambda c: c.name == "HeaderItem", inline_module=None)
         o = Obj(dex, "dex")
         o.attrs["raw"] = StreamV("buff", index=0)
         o.attrs["CM"] = Sym("cm")
+        before = len(seen)
         it.call_function(load, [Sym("param", "buff")], recv=o)
+        if len(seen) == before:
+            raise Raised("NoMapList", None, "this path does not construct a MapList")
         return True
 
-    res = explore(run, max_paths=6000)
+    explore_first(run)
     ctx.require(seen, "DEX._load never constructs a MapList on an abstract path")
     for args, asg in seen:
         exp = slot_bits(0, off, 4, False, asg)
         good = any(isinstance(a, Bits) and a.subst(asg) == exp for a in args)
+        if not good and not any(isinstance(a, Bits) and not a.has_top() for a in args):
+            raise AnalysisError("DEX._load: the offset handed to MapList evaluates to an opaque term (%s)" % [show(a)[:60] for a in args])
         ctx.check("header/map_off", "DEX._load", good, load, "MapList(...) offset",
                   "the map list is located by header_item.map_off (bytes %d..%d); DEX._load passes %s" % (
                       off, off + 3, [describe_bits(a) if isinstance(a, Bits) else show(a)[:40] for a in args]),
